@@ -585,6 +585,12 @@ func VerifyNODATAForZoneWithWork(
 		if q.Qtype == dns.TypeDS && typesSet(types, dns.TypeSOA) {
 			return false, ErrNSECBadDelegation
 		}
+		// RFC 6840 §4.1: the parent-side NSEC3 of a delegation point (NS
+		// set, SOA clear) denies nothing but DS at that name.
+		if q.Qtype != dns.TypeDS && typesSet(types, dns.TypeNS) &&
+			!typesSet(types, dns.TypeSOA) {
+			return false, ErrNSECBadDelegation
+		}
 		return true, nil
 	} else if err != ErrNSECMissingCoverage {
 		return false, err
